@@ -369,7 +369,7 @@ class Exec:
         m = re.match(r"(move|copy) (.+?) as .+ \(.+\)$", s)
         if m:
             return self.operand(path, m.group(1) + " " + m.group(2))
-        m = re.match(r"[\w:<>'&, \[\]\(\)]*?::(None|Some|Ok|Err|Continue|Break)(?:\((.*)\))?$", s)
+        m = re.match(r"[\w:<>'&, \[\]\(\)+]*?::(None|Some|Ok|Err|Continue|Break)(?:\((.*)\))?$", s)
         if m and not s.startswith(("move ", "copy ")):
             var = m.group(1)
             args = split_top(m.group(2)) if m.group(2) else []
